@@ -15,6 +15,7 @@ import Driver.C14
 import Driver.C01
 import Driver.C03
 import Driver.C09
+import Driver.C12
 open Driver
 
 def dispatch (op : String) (args : List String) (obs : String) : Option Verdict :=
@@ -34,6 +35,7 @@ def dispatch (op : String) (args : List String) (obs : String) : Option Verdict 
   <|> (Driver.C01.handle op args obs)
   <|> (Driver.C03.handle op args obs)
   <|> (Driver.C09.handle op args obs)
+  <|> (Driver.C12.handle op args obs)
 
 def processLine (line : String) : String :=
   let line := line.trimRight
